@@ -6,7 +6,8 @@ EXPLANATION = ('Sibling cross-check of the three sites in logos_codegen::generat
                'each site must consume literal, priority, callback, ignore_flags (and allow_greedy for regex/skip); the ignore_case argument of Pattern::compile '
                'must be the definition\'s own flag; a token without ignore(case) must bypass the regex parser through Pattern::compile_lit (Hir::literal of the raw bytes), '
                'with ignore(case) it is compiled from Literal::escape(true); Pattern::compile hands unicode/ignore_case to the regex parser builder. '
-               'IgnoreFlags::ignore_case is written by parse_ident only (M-C10d). Decides that the flag and the literal reach regex-syntax unaltered at every site; not that regex-syntax\'s escaping / case folding denote the claimed languages.')
+               'IgnoreFlags::ignore_case is written by parse_ident only (M-C10d). Decides that the flag and the literal reach regex-syntax unaltered at every site; not that regex-syntax\'s escaping / case folding denote the claimed languages.'
+               ' Added in round 8: ignore(case) leaves the default priority of a token alone (M-C09a: twice the byte length of the literal value, not of its escaped form) and no cache or counter is shared between compilations (M-C16b).')
 
 
 def run(ctx, rep):
